@@ -74,7 +74,7 @@ let () =
                            n_crea = has 'c' a.(2); n_v6b = has '6' a.(2); n_a4 = aspec_of a.(3); n_a6 = aspec_of a.(4);
                            n_apd = aspec_of a.(5); n_l4 = ni (int_of_string a.(6)); n_b4 = tm a.(7);
                            n_l6 = ni (int_of_string a.(8)); n_b6 = tm a.(9) }, o4, o6, opd))
-            | "ckrel" | "ck2" -> None
+            | "ckrel" | "ck2" | "failrel" -> None
             | "ck" -> Some (Ck (ni (int_of_string a.(1))))
             | "cks" -> Some (Cks (ni (int_of_string a.(1))))
             | "rel" -> Some (Rel (ni (int_of_string a.(1))))
@@ -98,6 +98,21 @@ let () =
               Some (Crash (a.(1) = "p", fail, Z0))
             | _ -> None in
           match o with
+          | None when a.(0) = "failrel" ->
+            (* Poison t; Done t (given up); Rel i — only when ticket t is a pending Put of the live session i *)
+            let t = ni (int_of_string a.(1)) and i = ni (int_of_string a.(2)) in
+            let ok = (match aget t !s.pend with Some r -> int_of_n r.s_id = int_of_n i | None -> false)
+                     && (aget i !s.live <> None) && effective c !s i t in
+            if not ok then outs := "skip" :: !outs else
+            (match step c !s (Poison (t, false)) with
+             | Some (s1, _) ->
+               (match step c s1 (Done (t, false)) with
+                | Some (s2, _) ->
+                  (match step c s2 (Rel i) with
+                   | Some (s3, ORel lg) -> s := s3; outs := ("failrel " ^ log_s lg) :: !outs
+                   | _ -> outs := "MODELBUG" :: !outs)
+                | None -> outs := "MODELBUG" :: !outs)
+             | None -> outs := "MODELBUG" :: !outs)
           | None when a.(0) = "ckrel" || a.(0) = "ck2" ->
             let i = ni (int_of_string a.(1)) in
             (match step c !s (Ck i) with
